@@ -7,6 +7,8 @@
 From Coq Require Import List ZArith.
 Import ListNotations.
 From V Require Import Valid.Hier Model.Graph Model.Queries Model.Edits Model.Iter.
+From Coq Require Import Lia.
+From V Require Import Model.Pipe Model.PipeBounded Model.PipeBounded4.
 
 (* value-table maintenance (basic_block.py: assert len(diff) == 1): with the
    same number of targets the rewrite is positional and never fails *)
@@ -31,3 +33,21 @@ Proof.
   intros level succs head Hnd Hh. destruct (view_spec level succs head Hnd Hh) as [l [E _]]. eauto.
 Qed.
 Print Assumptions C02_iterators_total.
+
+(* bounded form over the MODEL of the whole pipeline: on every closed graph with at most
+   4 blocks all three stages complete (no assertion, key error, missing exit or exhausted fuel) *)
+Theorem C02_pipeline_model_le4 :
+  forall n g, (n <= 4)%nat -> In g (closed_graphs n) ->
+    exists s0 s1 s2,
+      p_stage nmU 0 (init_state g) topU = POk s0 /\ p_stage nmU 1 s0 topU = POk s1 /\
+      p_stage nmU 2 s1 topU = POk s2.
+Proof.
+  intros n g Hn Hin. destruct (pipeline_good_le4 n g Hn Hin) as [s0 [s1 [s2 [A0 [_ [A1 [_ [A2 _]]]]]]]].
+  exists s0, s1, s2. auto.
+Qed.
+Print Assumptions C02_pipeline_model_le4.
+
+Theorem C02_input_space_le4 :
+  map (fun n => length (closed_graphs n)) [1; 2; 3; 4]%nat = [1; 2; 60; 3816]%nat.
+Proof. exact closed_counts. Qed.
+Print Assumptions C02_input_space_le4.
